@@ -19,6 +19,12 @@ def _t(what):
 
 
 CLAIMED = {
+    "C04": ("Bounded symbolic model checking of ONE inductive step from every freshness state (each reached through public calls, the "
+            "stale slot holding an unrelated sequence) over a 35-operation alphabet with symbolic arguments: readability, agreement of the "
+            "two raw views, and independence of the result from the freshness state (differential). Covers histories of any length by "
+            "induction over the invariant, within the state-size bound.", "4 C04"),
+    "C09": (_t("sequences_split_bars over concrete signature/key plans with symbolic note onsets and durations (crossing bar lines is the solver's choice), re-quantisation on and off."), "4 C09"),
+    "C15": (_t("merge of 2-3 inputs with symbolic ticks (overlap / abutting / containment decided by the solver): roll union, alternation, duration, signatures in force, order independence."), "4 C15"),
     "C05": (_t("quantise with concrete step lists and symbolic ticks: grid membership, displacement (by message identity), pairing, overlap, event and survival clauses."), "4 C05"),
     "C06": (_t("quantise_note_lengths with concrete value lists, extension on/off and symbolic onsets/durations/gaps: allowed durations, fixed onsets, closest fitting value, removal iff nothing fits."), "4 C06"),
     "C16": (_t("one public operation on either side after every derivation route (copy at every level, split, bar splitting); value snapshots through both raw views."), "4 C16"),
